@@ -430,6 +430,52 @@ def run_cli_subprocess(res, q, A, hdr, exp, cfg, scratch, via_stdin):
     cli_expect_and_check(res, 'cli_subprocess_stdin' if via_stdin else 'cli_subprocess_file', q, text, A, hdr, exp, p.returncode, out_bytes, p.stderr, cfg, None)
 
 
+def run_cli_sqlite(res, q, A, exp, fmt, scratch, to_file, name_input):
+    """the `rbql sqlite` command line, in-process: database file with table t (and b), --out-format csv (quoted_rfc by definition) / tsv / omitted"""
+    from rbql import rbql_main
+    dbp, po = os.path.join(scratch, 'db.sqlite'), os.path.join(scratch, 'out.csv')
+    if os.path.exists(dbp):
+        os.remove(dbp)
+    an = names_for(A)
+    conn = sqlite3.connect(dbp)
+    conn.execute('CREATE TABLE t (%s)' % ', '.join('%s TEXT' % n for n in an))
+    conn.executemany('INSERT INTO t VALUES (%s)' % ', '.join('?' for _ in an), A)
+    if q.get('join') or name_input:
+        conn.execute('CREATE TABLE b (jk TEXT, jv TEXT)')
+        conn.executemany('INSERT INTO b VALUES (?, ?)', B)
+    conn.commit()
+    conn.close()
+    text = render(q)
+    argv = ['rbql', 'sqlite', dbp, '--query', text] + (['--out-format', fmt] if fmt else []) + (['--input', 't'] if (name_input or q.get('join')) else []) + (['--output', po] if to_file else [])
+    fake_out = io.TextIOWrapper(io.BytesIO(), encoding='utf-8')
+    fake_err = io.StringIO()
+    saved = (sys.argv, sys.stdin, sys.stdout, sys.stderr)
+    rc = 0
+    try:
+        sys.argv, sys.stdin, sys.stdout, sys.stderr = argv, io.TextIOWrapper(io.BytesIO(b''), encoding='utf-8'), fake_out, fake_err
+        try:
+            rbql_main.main()
+        except SystemExit as e:
+            rc = e.code if isinstance(e.code, int) else (0 if e.code is None else 1)
+    finally:
+        sys.argv, sys.stdin, sys.stdout, sys.stderr = saved
+    try:
+        fake_out.flush()
+    except Exception:
+        pass
+    out_bytes = fake_out.buffer.getvalue()
+    if to_file:
+        extra, out_bytes = out_bytes, b''
+        if os.path.exists(po):
+            with open(po, 'rb') as f:
+                out_bytes = f.read()
+            os.remove(po)
+        if extra:
+            res.violation('cli-writes-to-stdout-with-output-file', {'query': text, 'cli': 'sqlite'}, b'', extra[:100])
+    cfg = ('sqlite', None, fmt or '(default)', None, ('\t', 'simple') if fmt == 'tsv' else (',', 'quoted_rfc'))
+    cli_expect_and_check(res, 'cli_sqlite_file' if to_file else 'cli_sqlite_stdout', q, text, A, True, exp, rc, out_bytes, fake_err.getvalue().encode(), cfg, {'argv': argv[3:]})
+
+
 def cases(sh):
     qs, named = queries()
     if sh.get('tier') == 'thorough':
@@ -500,6 +546,19 @@ def run_shard(sh):
                         for via_stdin in (False, True):
                             run_cli_inprocess(res, q, T, hdr, e2, cfg, scratch, via_stdin)
                             res.transitions += 1
+                if hdr:
+                    for fi, fmt in enumerate((None, 'csv', 'tsv')):
+                        for T in [A] + ([SPECIAL['nl'], SPECIAL['tab']] if fmt != 'tsv' else []):
+                            if len(T[0]) != len(A[0]) and len(A[0]) < 3:
+                                continue
+                            if fmt == 'tsv' and any(('\t' in c or '\n' in c or '\r' in c) for r in T for c in r):
+                                continue
+                            e2 = exp if T is A else expected(q, T, True)
+                            if (e2.error is not None and e2.error[0] == 'sort') or (e2.error is None and (any(v is None or isinstance(v, (list, tuple)) for r in e2.records for v in r) or any(len(r) == 0 for r in e2.records))):
+                                continue
+                            for to_file in (True, False):
+                                run_cli_sqlite(res, q, T, e2, fmt, scratch, to_file, name_input=(idx + fi) % 2 == 0)
+                                res.transitions += 1
             else:
                 # real processes: rotate configuration and stdin/file per case so that every combination is spawned across the case list
                 cfg = CLI_CFGS[idx % len(CLI_CFGS)]
@@ -541,11 +600,11 @@ def main(tier, seed):
     res = core.run_shards('vf.checks.c13', shards)
     return core.finish(PID, tier, seed, res, t0,
         rule='34 queries x 3 tables x {header, no header} (+ named-column queries) through 6 library entry points (query_table, query with Table* classes, query with own plain classes, query_csv, pandas, sqlite->csv), '
-             'the CLI in-process under 6 configurations x {file, stdin->stdout} with special-cell tables for explicit policies, and real `python -m rbql` subprocesses rotating over all configurations; non-trivial = a successful run that agrees with RefQL',
+             'the CLI in-process under 6 configurations x {file, stdin->stdout} with special-cell tables for explicit policies, the `rbql sqlite` command line in-process (--out-format omitted / csv / tsv x file / stdout, cells with line breaks and tabs), and real `python -m rbql` subprocesses rotating over all configurations; non-trivial = a successful run that agrees with RefQL',
         assumptions=['results are compared after str(); expressions are type-agnostic over string cells', 'child processes run with PYTHONWARNINGS=ignore (Python 3.12 prints its own SyntaxWarning when compiling rbql_engine.py from source)'],
         extra={'cli_configurations': [list(c[:3]) + [cfg_enc(c)] for c in CLI_CFGS]},
         min_features={'ep_query_table': 100, 'ep_query_registry_from': 1000, 'ep_query_custom_classes': 100, 'ep_query_csv': 100, 'ep_query_csv_comment_prefix': 100, 'ep_pandas': 100, 'ep_sqlite_to_csv': 50, 'ep_cli_inprocess_file': 300, 'ep_cli_inprocess_stdin': 300,
-                      'ep_cli_subprocess_file': 30, 'ep_cli_subprocess_stdin': 30, 'cli_failures_ok': 20, 'failing_agree': 20})
+                      'ep_cli_sqlite_file': 300, 'ep_cli_sqlite_stdout': 300, 'ep_cli_subprocess_file': 30, 'ep_cli_subprocess_stdin': 30, 'cli_failures_ok': 20, 'failing_agree': 20})
 
 
 def replay(rep):
